@@ -18,7 +18,8 @@ def comp_code(name: str) -> int:
     if name in SPLITS: return SPLITS.index(name)
     if name in CODE: return CODE[name]
     if name.startswith("w") and name[1:9].isdigit(): return 100 + int(name[1:9])     # patched uuid of a multi-writer dir
-    raise ValueError(name)
+    import zlib
+    return 10 ** 6 + zlib.crc32(name.encode()) % 10 ** 6                              # any other directory name: a stable code of its own
 
 
 def dir_code(rel_parent: Path):
